@@ -2,11 +2,13 @@
 are asked twice, in different orders, on a re-parsed copy, and (with --child) in a second process with another PYTHONHASHSEED; the answers and
 the serialised bytes must not change.  Prints JSON."""
 import ast
+import re
 import json
 import os
 import subprocess
 import sys
 sys.path.insert(0, os.path.dirname(os.path.abspath(__file__)))
+from _report import spread  # noqa: E402
 from vmref import corpus  # noqa: E402
 import fickling.fickle as fk  # noqa: E402
 from fickling.analysis import check_safety  # noqa: E402
@@ -29,9 +31,13 @@ def answers(p):
     return out
 
 
-def all_answers():
+def all_answers(reverse=False):
+    """answers for every corpus program, asked in corpus order (or in the reverse order: what was analysed before a pickle differs)"""
     res = {}
-    for name, data in corpus():
+    progs = list(corpus())
+    if reverse:
+        progs.reverse()
+    for name, data in progs:
         try:
             p = fk.Pickled.load(data)
         except Exception:  # noqa
@@ -41,7 +47,8 @@ def all_answers():
 
 
 if "--child" in sys.argv:
-    print(json.dumps({k: v[1] for k, v in all_answers().items()}))
+    # the second process also asks in the opposite order, so that an answer depending on what was analysed earlier in the process differs
+    print(json.dumps({k: v[1] for k, v in all_answers(reverse=True).items()}))
     sys.exit(0)
 
 fails, n = [], 0
@@ -75,6 +82,6 @@ if "--two-process" in sys.argv:
         a1j = json.loads(json.dumps(a1))
         diff = [k for k in a1j if a1j[k] != a[k]]
         if diff:
-            fails.append({"program": name, "bytes": hexdata, "when": "second process, other hash seed", "differs": diff,
+            fails.append({"program": name, "bytes": hexdata, "when": "second process, other hash seed, programs asked in the opposite order", "differs": diff,
                           "first": {k: str(a1j[k])[:200] for k in diff}, "then": {k: str(a[k])[:200] for k in diff}})
-print(json.dumps({"failures": fails[:20], "n_failures": len(fails), "programs": n}))
+print(json.dumps({"failures": spread(fails, lambda f: (re.sub(r"[0-9]+", "", f["program"]), f.get("when"), f.get("differs")), per=3), "n_failures": len(fails), "programs": n}))
